@@ -28,6 +28,7 @@ typedef LabeledUndirectedGraph<L> G;
 typedef LabeledDirectedGraph<L> G;
 #define GT LabeledDirectedGraph
 #endif
+#define NAMECH(k) ((unsigned char)((k) == 0 ? 'a' : (k) == 1 ? 'b' : '#'))
 #ifndef LINES
 #define LINES 2
 #endif
@@ -89,17 +90,19 @@ extern "C" void harness() {
         isedge[r] = nd(2); ea[r] = nd(3); eb[r] = nd(3); el[r] = (int)nd(10);
         if (!isedge[r]) { buf[len++] = '#'; buf[len++] = ndb() ? 'x' : ' '; }
         else {
-            if (ndb()) buf[len++] = ws_char();
 #if Q == 1
+            if (ndb()) buf[len++] = ws_char();
             buf[len++] = (unsigned char)('0' + ea[r]);
 #else
-            buf[len++] = (unsigned char)('a' + ea[r]);          // vertex names 'a','b','c'
+            // vertex names 'a', 'b', '#': a name may start with '#' as long as it does not start the line (then the line is a comment)
+            if (ndb() || ea[r] == 2) buf[len++] = ws_char();
+            buf[len++] = NAMECH(ea[r]);
 #endif
             buf[len++] = ws_char(); if (ndb()) buf[len++] = ws_char();
 #if Q == 1
             buf[len++] = (unsigned char)('0' + eb[r]);
 #else
-            buf[len++] = (unsigned char)('a' + eb[r]);
+            buf[len++] = NAMECH(eb[r]);
 #endif
 #if LAB
             buf[len++] = ws_char(); if (ndb()) buf[len++] = ws_char(); buf[len++] = (unsigned char)('0' + el[r]);   // one or two blanks before the label
@@ -152,7 +155,7 @@ extern "C" void harness() {
         if (want) REACH("loaded edge observed");
     }
 #if Q == 2
-    { unsigned x = nd(3); if (idx[x] != 9) { CHECK(names[idx[x]].size() == 1 && names[idx[x]][0] == (char)('a' + x), "names[index(x)] = x for every vertex name"); if (idx[x] > 0) REACH("name of a later vertex observed"); } }
+    { unsigned x = nd(3); if (idx[x] != 9) { CHECK(names[idx[x]].size() == 1 && names[idx[x]][0] == (char)NAMECH(x), "names[index(x)] = x for every vertex name"); if (idx[x] > 0) REACH("name of a later vertex observed"); if (x == 2) REACH("vertex name starting with '#' observed"); } }
 #endif
     if (nedges == LINES) REACH("file of edge lines only"); if (nedges < LINES && nedges) REACH("file mixing comment and edge lines");
 #elif Q == 3
